@@ -35,7 +35,8 @@ def run(ctx):
         json.dump(plan, f)
     res = ctx.gotest('handshake', 'TestVerif_C06', also=('hs',), timeout=1500)
     hs.finish(ctx, res, 'harness')
-    ctx.require_actions('Deliver', 'Initiate', 'complete', 'matrix', 'pair', 'V:session', 'T:pair')
+    if not ctx.violations:      # vacuity only matters for a run that reports no disagreement
+        ctx.require_actions('Deliver', 'Initiate', 'complete', 'matrix', 'pair', 'V:session', 'T:pair')
 
 
 META = {
